@@ -39,10 +39,13 @@ def run(ctx):
     ctx.extra.update({"integers": r["integers"], "fractions": r["fractions"], "path_points": r["path_points"],
                       "max_deviation_on_paths": r["max_deviation"], "bound": r["bound"],
                       "forms_written_on_paths": r.get("forms_written")})
-    # vacuity guard: the long paths really were written with every line and curve form
-    for form in ("hlineto", "vlineto", "rlineto", "hvcurveto", "vhcurveto", "rrcurveto"):
-        if (r.get("forms_written") or {}).get(form, 0) < 20:
-            raise core.Broken("vacuity: the long paths contain fewer than 20 %s commands: %s" % (form, r.get("forms_written")))
+    # vacuity guard, computed from the requested geometry (not from what the library wrote): every class of
+    # coincidences that the writer's choice of hlineto / vlineto / hvcurveto / vhcurveto depends on occurs often
+    shapes = r.get("shapes") or {}
+    ctx.extra["segment_shapes_on_paths"] = shapes
+    for cls in ("L:h", "L:v", "L:r", "C:1010", "C:0101", "C:1001", "C:0110", "C:0000"):
+        if shapes.get(cls, 0) < 10:
+            raise core.Broken("vacuity: the long paths contain fewer than 10 segments of class %s: %s" % (cls, shapes))
     ctx.sample(r["axes"][0])
     ctx.sample(json.loads(lines[0]))
     ctx.sample(json.loads(lines[-1]))
